@@ -595,3 +595,7 @@ Definition h_restore (a : natt) : natt :=
 Definition h_lowered (a : natt) : natt := let c := dflt (a_hc a) 0 in if 0 <? c then dec_h c a else a.
 Definition no_tgh (g : gr) : bool :=
   forallb (fun p : N * natt => match a_tgh (snd p) with None => true | Some _ => false end) (gnodes g).
+
+(** vocabulary of the two-routes theorem: every node of the ITS carries typesGH (as ITSGraph writes it) *)
+Definition all_tgh (g : gr) : bool :=
+  forallb (fun p : N * natt => match a_tgh (snd p) with Some _ => true | None => false end) (gnodes g).
